@@ -30,7 +30,7 @@ type c37Ann struct {
 }
 
 type c37Diag struct {
-	Level   int // 2 error, 3 warning, 4 remark
+	Level   int // 1 internal compiler error, 2 error, 3 warning, 4 remark
 	Message string
 	Tag     string
 	InFile  string
@@ -263,7 +263,7 @@ func c37Gen(t *rapid.T) c37Case {
 	nd := rapid.IntRange(1, 4).Draw(t, "nd")
 	for i := 0; i < nd; i++ {
 		d := c37Diag{
-			Level:   rapid.SampledFrom([]int{2, 3, 4}).Draw(t, "level"),
+			Level:   rapid.SampledFrom([]int{1, 2, 2, 3, 4}).Draw(t, "level"),
 			Message: msg.Draw(t, "msg"),
 			Tag:     rapid.SampledFrom([]string{"", "", "tag-a", "x.y"}).Draw(t, "tag"),
 			InFile:  rapid.SampledFrom([]string{"", "", "f0.proto", "other.proto"}).Draw(t, "infile"),
@@ -303,6 +303,6 @@ func c37Gen(t *rapid.T) c37Case {
 
 func TestC37_RoundTrip(t *testing.T) {
 	ev.Run(t, ev.Spec[c37Case]{ID: "C37", Name: "RoundTrip", Quick: 4000, Thorough: 200000,
-		Rule: "generated reports: 1-4 files (empty, ASCII, multi-byte), 1-4 diagnostics of level Error/Warning/Remark with non-empty message, optional tag/in_file, notes/help/debug lists, 0-3 annotations each (zero-width at 0 / at end of file / whole file / random sub-span; message; page break; 0-2 edits inside the span); built only through the public constructors; oracle: ToProto carries exactly the generated content (checked field by field via reflection against the generator's model), AppendFromProto(marshalled ToProto) succeeds, and re-serialising the decoded report gives an equal message and equal public accessors; non-trivial = has a zero-width end-of-file span or an edit; distinct by case",
+		Rule: "generated reports: 1-4 files (empty, ASCII, multi-byte), 1-4 diagnostics of level ICE/Error/Warning/Remark with non-empty message, optional tag/in_file, notes/help/debug lists, 0-3 annotations each (zero-width at 0 / at end of file / whole file / random sub-span; message; page break; 0-2 edits inside the span); built only through the public constructors; oracle: ToProto carries exactly the generated content (checked field by field via reflection against the generator's model), AppendFromProto(marshalled ToProto) succeeds, and re-serialising the decoded report gives an equal message and equal public accessors; non-trivial = has a zero-width end-of-file span or an edit; distinct by case",
 		Gen:  c37Gen, Check: c37Check})
 }
